@@ -395,6 +395,11 @@ def corpus():
         ('peer', enc(_echo_rq()) + pdu.AAbortPDU(0, 0).encode(), 1), ('close', None, 1)])
     c['acc_request_abort_pipelined'] = (True, [
         ('peer', _rq().encode() + pdu.AAbortPDU(0, 0).encode(), 0), ('close', None, 0)])
+    # a peer that breaks the protocol and does not wait either: unexpected A-ASSOCIATE-AC, a PDU of unknown type and an
+    # A-ASSOCIATE-RQ behind each other (AA-8, then the Sta13 column: AA-7 twice), then the close
+    c['acc_invalid_pdus_pipelined'] = (True, [
+        ('peer', _rq().encode(), 0), ('user', _ac(), 1),
+        ('peer', _ac().encode() + b'\x2a\x00\x00\x00\x00\x02\xab\xcd' + _rq().encode(), 1), ('close', None, 1)])
     st2 = _store_rsp()
     c['acc_sending_fragments_peer_closes'] = (True, [
         ('peer', _rq().encode(), 0), ('user', _ac(), 1),
